@@ -6,6 +6,7 @@ pub mod m_grammar;
 pub mod m_match;
 pub mod m_strings;
 pub mod m_quality;
+pub mod m_sort;
 pub mod m_total;
 pub mod refm;
 pub mod report;
